@@ -254,7 +254,9 @@ type Exit struct {
 	St        *State
 	Results   []ast.Expr
 	Class     string
-	BoolRes   int8    // value of the function's only bool result at this exit (isTrue/isFalse, 0 unknown)
+	BoolRes   int8
+	// PreClass: with Spec.DeferAtExit, the class of the exit before the deferred literals ran ("" otherwise)
+	PreClass string    // value of the function's only bool result at this exit (isTrue/isFalse, 0 unknown)
 	Via       *Origin // non-nil: an exit of a helper the function returns through (`return helper(..)`)
 	ErrOrigin *Origin // the call whose error is returned directly (return f() / return err with err := f())
 	OkImplies map[Tag]bool
@@ -284,6 +286,8 @@ type CallPoint struct {
 	InLoop bool
 	Defer  bool
 	Fn     *core.FuncInfo // the declared function whose body contains the call (the analysed one, or an inlined callee)
+	// ArgBool: for bool-typed arguments whose value is known on this path: 1 = true, 2 = false
+	ArgBool map[int]int8
 }
 
 // Drop is an error result that is discarded.
@@ -359,6 +363,8 @@ type Spec struct {
 	Effect func(pkg *packages.Package, n ast.Node, st *State)
 	// AssumeNonNil marks calls whose (single) result is to be assumed non-nil ("what if this failed / panicked").
 	AssumeNonNil func(pkg *packages.Package, call *ast.CallExpr) bool
+	// AssumeNil marks calls whose (single) result is to be assumed nil ("what if nothing was recovered").
+	AssumeNil func(pkg *packages.Package, call *ast.CallExpr) bool
 	// LoopTags optionally returns tags that hold once a range loop has completed (the rule inspects the
 	// loop's shape, e.g. "every element is re-sent"); they are added on the loop's exit edge.
 	LoopTags func(pkg *packages.Package, rs *ast.RangeStmt) []Tag
@@ -390,6 +396,9 @@ type Spec struct {
 	DeferAtExit bool
 
 	nextInline int
+	// fieldObjs: stand-in objects for `x.f` with x a local variable or parameter of struct (pointer) type: facts about
+	// the field are kept under them like facts about a variable (State.Nil / Bool / Eq / Def)
+	fieldObjs  map[fieldKey]*types.Var
 	paramRoot  map[types.Object]types.Object // parameter of a callee being analysed in context -> the caller's variable it stands for
 	nextFn     *core.FuncInfo                // function the next run analyses (CallPoint.Fn)
 	litOwner   *core.FuncInfo                // declared function enclosing the literal the next runLit analyses
@@ -428,6 +437,146 @@ func (sp *Spec) runLit(pkg *packages.Package, lit *ast.FuncLit, depth int, quiet
 	sp.Visit = saved
 	sp.lits[k] = r
 	return r
+}
+
+type fieldKey struct {
+	root  types.Object
+	field *types.Var
+}
+
+// FieldObj: the stand-in object under which facts about root.field are kept (root: a local variable or parameter
+// holding a struct or a pointer to one). Rules use it to seed facts about a field.
+func (sp *Spec) FieldObj(root types.Object, field *types.Var) types.Object {
+	if sp.fieldObjs == nil {
+		sp.fieldObjs = map[fieldKey]*types.Var{}
+	}
+	k := fieldKey{sp.RootOf(root), field}
+	if v, ok := sp.fieldObjs[k]; ok {
+		return v
+	}
+	v := types.NewVar(field.Pos(), field.Pkg(), k.root.Name()+"."+field.Name(), field.Type())
+	sp.fieldObjs[k] = v
+	return v
+}
+
+// ObjOfExpr: the object facts about e are kept under — a variable, or the stand-in of a field selection x.f.
+func (sp *Spec) ObjOfExpr(info *types.Info, e ast.Expr) types.Object {
+	switch x := ast.Unparen(e).(type) {
+	case *ast.Ident:
+		if o := info.Defs[x]; o != nil {
+			return o
+		}
+		return info.Uses[x]
+	case *ast.SelectorExpr:
+		id, ok := ast.Unparen(x.X).(*ast.Ident)
+		if !ok {
+			return nil
+		}
+		root, ok := info.Uses[id].(*types.Var)
+		fld, ok2 := info.Uses[x.Sel].(*types.Var)
+		if !ok || !ok2 || !fld.IsField() || root.IsField() || root.Pkg() == nil || root.Parent() == root.Pkg().Scope() {
+			return nil
+		}
+		t := root.Type()
+		if p, isP := t.Underlying().(*types.Pointer); isP {
+			t = p.Elem()
+		}
+		if _, isS := t.Underlying().(*types.Struct); !isS {
+			return nil
+		}
+		return sp.FieldObj(root, fld)
+	}
+	return nil
+}
+
+func isAddrOf(e ast.Expr) bool {
+	u, ok := ast.Unparen(e).(*ast.UnaryExpr)
+	return ok && u.Op == token.AND
+}
+
+// boolOf: the value of a bool expression on this path (isTrue / isFalse / 0): what the facts decide, or — for a call
+// of a function analysed in context — what every exit still possible returns
+func (r *runner) boolOf(e ast.Expr, st *State) int8 {
+	if k, v := r.condValue(e, st); k {
+		if v {
+			return isTrue
+		}
+		return isFalse
+	}
+	if c, ok := ast.Unparen(e).(*ast.CallExpr); ok {
+		if or := r.origins[c]; or != nil && or.Inlined && len(or.Exits) > 0 && len(or.Exits) <= 64 && or.Sum != nil && or.Sum.BoolIdx == 0 {
+			f, has := st.Feas[or]
+			if !has || f.n != len(or.Exits) {
+				f = feas{mask: ^uint64(0) >> (64 - uint(len(or.Exits))), n: len(or.Exits)}
+			}
+			var v int8
+			for i, ex := range or.Exits {
+				if f.mask&(1<<uint(i)) == 0 {
+					continue
+				}
+				if ex.BoolRes == 0 || (v != 0 && v != ex.BoolRes) {
+					return 0
+				}
+				v = ex.BoolRes
+			}
+			return v
+		}
+	}
+	return 0
+}
+
+func recvExprOf(c *ast.CallExpr) ast.Expr {
+	if sel, ok := ast.Unparen(c.Fun).(*ast.SelectorExpr); ok {
+		return sel.X
+	}
+	return nil
+}
+
+// structRoot: e is x or &x with x a local variable / parameter holding a struct or a pointer to one
+func (r *runner) structRoot(e ast.Expr) types.Object {
+	if e == nil {
+		return nil
+	}
+	e = ast.Unparen(e)
+	if u, ok := e.(*ast.UnaryExpr); ok && u.Op == token.AND {
+		e = ast.Unparen(u.X)
+	}
+	id, ok := e.(*ast.Ident)
+	if !ok {
+		return nil
+	}
+	v, ok := r.info.Uses[id].(*types.Var)
+	if !ok || v.IsField() || v.Pkg() == nil || v.Parent() == v.Pkg().Scope() {
+		return nil
+	}
+	t := v.Type()
+	if p, isP := t.Underlying().(*types.Pointer); isP {
+		t = p.Elem()
+	}
+	if _, isS := t.Underlying().(*types.Struct); !isS {
+		return nil
+	}
+	return v
+}
+
+func identOf(e ast.Expr) *ast.Ident {
+	id, _ := ast.Unparen(e).(*ast.Ident)
+	return id
+}
+
+// fieldObj: the stand-in of x.f (nil when x is not a local struct variable)
+func (r *runner) fieldObj(x *ast.SelectorExpr) types.Object {
+	return r.sp.ObjOfExpr(r.info, x)
+}
+
+// killFieldsOf forgets what is known about the fields of root (it was handed to code that was not analysed)
+func (r *runner) killFieldsOf(root types.Object, st *State) {
+	root = r.sp.RootOf(root)
+	for k, v := range r.sp.fieldObjs {
+		if k.root == root {
+			r.killVar(v, st, token.NoPos)
+		}
+	}
 }
 
 type sumKey struct {
@@ -1156,6 +1305,11 @@ func (r *runner) refine(cond ast.Expr, branch bool, st *State) {
 			} else {
 				st.Bool[o] = isFalse
 			}
+			// a parameter of a callee analysed in context that stands for the caller's variable: the test is a
+			// test of that variable
+			if root := r.sp.RootOf(o); root != o {
+				st.Bool[root] = st.Bool[o]
+			}
 			if or := st.Def[o]; or != nil {
 				r.boolEvent(or, branch, st)
 				r.boolSum(or, st.DefIdx[o], branch, st)
@@ -1172,6 +1326,12 @@ func (r *runner) refine(cond ast.Expr, branch bool, st *State) {
 				}
 			} else {
 				r.refine(e, branch, st)
+			}
+		} else if fo := r.fieldObj(x); fo != nil && st.Def[r.info.Uses[identOf(x.X)]] == nil {
+			if branch {
+				st.Bool[fo] = isTrue
+			} else {
+				st.Bool[fo] = isFalse
 			}
 		} else if or, idx, fld := r.fieldOfResult(x, st); or != nil {
 			// a bool field of a struct a callee analysed in context handed back: only the exits whose literal can
@@ -1363,6 +1523,8 @@ func (r *runner) setNil(e ast.Expr, nilv bool, st *State) {
 	switch x := e.(type) {
 	case *ast.Ident:
 		o = r.info.Uses[x]
+	case *ast.SelectorExpr:
+		o = r.fieldObj(x)
 	case *ast.CallExpr:
 		// if f() != nil
 		if or := r.origins[x]; or != nil && or.ErrIdx == 0 {
@@ -1615,6 +1777,18 @@ func (r *runner) useFreeVars(lit *ast.FuncLit, st *State) {
 						delete(st.DefIdx, o)
 					}
 				}
+				if sel, ok := ast.Unparen(l).(*ast.SelectorExpr); ok {
+					if fo := r.fieldObj(sel); fo != nil {
+						r.killVar(fo, st, token.NoPos)
+					}
+				}
+			}
+		case *ast.CallExpr:
+			// a captured struct variable handed to (or called on by) code of the literal: its fields may change
+			for _, a := range append(append([]ast.Expr{}, x.Args...), recvExprOf(x)) {
+				if root := r.structRoot(a); root != nil && (root.Pos() < lit.Pos() || root.Pos() > lit.End()) {
+					r.killFieldsOf(root, st)
+				}
 			}
 		case *ast.IncDecStmt:
 			if id, ok := ast.Unparen(x.X).(*ast.Ident); ok {
@@ -1723,7 +1897,23 @@ func (r *runner) call(b *cfg.Block, c *ast.CallExpr, st *State, valueUsed bool) 
 		}
 	}
 	if r.record && len(or.Tags)+len(someTags) > 0 {
-		r.res.Calls = append(r.res.Calls, &CallPoint{Call: c, Callee: callee, Tags: append(append([]Tag{}, or.Tags...), someTags...), Before: st.copy(), InLoop: r.inLoop[b], Fn: r.fi})
+		cp := &CallPoint{Call: c, Callee: callee, Tags: append(append([]Tag{}, or.Tags...), someTags...), Before: st.copy(), InLoop: r.inLoop[b], Fn: r.fi}
+		for i, a := range c.Args {
+			t := r.info.TypeOf(a)
+			if t == nil {
+				continue
+			}
+			if bt, ok := t.Underlying().(*types.Basic); !ok || bt.Kind() != types.Bool {
+				continue
+			}
+			if v := r.boolOf(a, st); v != 0 {
+				if cp.ArgBool == nil {
+					cp.ArgBool = map[int]int8{}
+				}
+				cp.ArgBool[i] = v
+			}
+		}
+		r.res.Calls = append(r.res.Calls, cp)
 	}
 	for _, t := range someTags {
 		if !strings.HasPrefix(t, "-") && !strings.HasPrefix(t, "#") {
@@ -1732,6 +1922,17 @@ func (r *runner) call(b *cfg.Block, c *ast.CallExpr, st *State, valueUsed bool) 
 	}
 	for _, t := range or.Tags {
 		r.addTag(st, t)
+	}
+	if len(r.sp.fieldObjs) > 0 && r.inlineTarget(callee, or.Tags) == nil {
+		// code that is not analysed here is handed a local struct (by pointer, or as the receiver): what was known
+		// about its fields is forgotten (value arguments are copies, but a pointer inside may still be shared)
+		for _, a := range append(append([]ast.Expr{}, c.Args...), recvExprOf(c)) {
+			if root := r.structRoot(a); root != nil {
+				if _, isPtr := root.Type().Underlying().(*types.Pointer); isPtr || a != nil && isAddrOf(a) {
+					r.killFieldsOf(root, st)
+				}
+			}
+		}
 	}
 	if fi := r.inlineTarget(callee, or.Tags); fi != nil {
 		// the callee in the caller's context
@@ -1763,6 +1964,11 @@ func (r *runner) call(b *cfg.Block, c *ast.CallExpr, st *State, valueUsed bool) 
 					}
 					if r.pureTest(a) {
 						seed.Cond[params[i]] = ast.Unparen(a)
+					}
+					if bt, isB := params[i].Type().Underlying().(*types.Basic); isB && bt.Kind() == types.Bool {
+						if v := r.boolOf(a, st); v != 0 {
+							seed.Bool[params[i]] = v
+						}
 					}
 					if l := r.structLit(a, st); l != nil {
 						seed.Lit[params[i]] = l
@@ -1816,6 +2022,23 @@ func (r *runner) call(b *cfg.Block, c *ast.CallExpr, st *State, valueUsed bool) 
 						}
 					}
 				}
+			}
+		}
+		// what is known about the fields of local structs travels with them (the stand-ins are keyed by the
+		// caller's variable, whatever the callee calls it)
+		for _, fo := range r.sp.fieldObjs {
+			if v, ok := st.Nil[fo]; ok {
+				seed.Nil[fo] = v
+			}
+			if v, ok := st.Bool[fo]; ok {
+				seed.Bool[fo] = v
+			}
+			if v, ok := st.Eq[fo]; ok {
+				seed.Eq[fo] = v
+			}
+			if v, ok := st.Def[fo]; ok {
+				seed.Def[fo] = v
+				seed.DefIdx[fo] = st.DefIdx[fo]
 			}
 		}
 		// the receiver: a variable (or package variable) known to hold a struct literal
@@ -1876,6 +2099,19 @@ func (r *runner) call(b *cfg.Block, c *ast.CallExpr, st *State, valueUsed bool) 
 					}
 				}
 			}
+			// the receiver of a method called on a local struct variable stands for that variable
+			if fi.Decl.Recv != nil && len(fi.Decl.Recv.List) == 1 && len(fi.Decl.Recv.List[0].Names) == 1 {
+				if ro := fi.Pkg.TypesInfo.Defs[fi.Decl.Recv.List[0].Names[0]]; ro != nil && !reassigned[ro] {
+					if root := r.structRoot(recvExprOf(c)); root != nil {
+						// a value receiver is a copy: it stands for the variable only as long as nothing is written
+						if r.sp.paramRoot == nil {
+							r.sp.paramRoot = map[types.Object]types.Object{}
+						}
+						r.sp.paramRoot[ro] = r.sp.RootOf(root)
+						aliased = append(aliased, ro)
+					}
+				}
+			}
 		}
 		defer func() {
 			for _, p := range aliased {
@@ -1925,6 +2161,31 @@ func (r *runner) call(b *cfg.Block, c *ast.CallExpr, st *State, valueUsed bool) 
 						fr.groups = append(fr.groups, groups[k])
 					}
 					r.forkReq = fr
+				}
+			}
+		}
+		if len(sub.Exits) > 0 {
+			// fields of local structs: what every exit of the callee agrees on
+			for _, fo := range r.sp.fieldObjs {
+				nilv, boolv := sub.Exits[0].St.Nil[fo], sub.Exits[0].St.Bool[fo]
+				for _, ex := range sub.Exits[1:] {
+					if ex.St.Nil[fo] != nilv {
+						nilv = 0
+					}
+					if ex.St.Bool[fo] != boolv {
+						boolv = 0
+					}
+				}
+				delete(st.Nil, fo)
+				delete(st.Bool, fo)
+				delete(st.Eq, fo)
+				delete(st.Def, fo)
+				delete(st.DefIdx, fo)
+				if nilv != 0 {
+					st.Nil[fo] = nilv
+				}
+				if boolv != 0 {
+					st.Bool[fo] = boolv
 				}
 			}
 		}
@@ -2444,7 +2705,25 @@ func (r *runner) bind(o types.Object, e ast.Expr, st *State) {
 		if c := core.ConstObj(r.info, x); c != nil {
 			st.Eq[o] = c
 		}
+		if src := r.fieldObj(x); src != nil {
+			if v, ok := st.Nil[src]; ok {
+				st.Nil[o] = v
+			}
+			if v, ok := st.Bool[src]; ok {
+				st.Bool[o] = v
+			}
+			if v, ok := st.Eq[src]; ok {
+				st.Eq[o] = v
+			}
+			if v, ok := st.Def[src]; ok {
+				st.Def[o] = v
+				st.DefIdx[o] = st.DefIdx[src]
+			}
+		}
 	case *ast.CallExpr:
+		if r.sp.AssumeNil != nil && r.sp.AssumeNil(r.pkg, x) {
+			st.Nil[o] = isNil
+		}
 		if or := r.origins[x]; or != nil {
 			st.Def[o] = or
 			st.DefIdx[o] = 0
@@ -2586,7 +2865,15 @@ func (r *runner) exprNil(e ast.Expr, st *State) int8 {
 			}
 			return r.exprNil(v, st)
 		}
+		if fo := r.fieldObj(x); fo != nil {
+			if v, ok := st.Nil[fo]; ok {
+				return v
+			}
+		}
 	case *ast.CallExpr:
+		if r.sp.AssumeNil != nil && r.sp.AssumeNil(r.pkg, x) {
+			return isNil
+		}
 		if r.nonNilCall(x, st) {
 			return isNonNil
 		}
@@ -2676,6 +2963,21 @@ func (r *runner) assign(b *cfg.Block, a *ast.AssignStmt, st *State) {
 				continue
 			}
 			if o == nil {
+				if sel, isSel := ast.Unparen(l).(*ast.SelectorExpr); isSel && a.Tok == token.ASSIGN {
+					if fo := r.fieldObj(sel); fo != nil {
+						pre := int8(0)
+						if nillable(fo.Type()) {
+							pre = r.exprNil(a.Rhs[i], st)
+						}
+						r.killVar(fo, st, a.Pos())
+						r.bind(fo, a.Rhs[i], st)
+						if pre != 0 {
+							if _, known := st.Nil[fo]; !known {
+								st.Nil[fo] = pre
+							}
+						}
+					}
+				}
 				continue
 			}
 			if a.Tok != token.ASSIGN && a.Tok != token.DEFINE {
@@ -3102,7 +3404,7 @@ func (r *runner) runDefersAtExit(ret *ast.ReturnStmt, results []ast.Expr, pos to
 	}
 	r.inDefers = false
 	for _, fs := range states {
-		ex := &Exit{Stmt: ret, Pos: pos, St: fs, Results: ex0.Results, Class: ex0.Class, BoolRes: ex0.BoolRes, ErrOrigin: ex0.ErrOrigin, OkImplies: ex0.OkImplies, FailImpl: ex0.FailImpl, Via: ex0.Via}
+		ex := &Exit{Stmt: ret, Pos: pos, St: fs, Results: ex0.Results, Class: ex0.Class, BoolRes: ex0.BoolRes, ErrOrigin: ex0.ErrOrigin, OkImplies: ex0.OkImplies, FailImpl: ex0.FailImpl, Via: ex0.Via, PreClass: ex0.Class}
 		if named && r.errIdx >= 0 {
 			o := r.results[r.errIdx]
 			switch fs.Nil[o] {
@@ -3336,6 +3638,14 @@ func (r *runner) condValue(cond ast.Expr, st *State) (known, val bool) {
 			}
 			return r.condValue(e, st)
 		}
+		if fo := r.fieldObj(x); fo != nil {
+			switch st.Bool[fo] {
+			case isTrue:
+				return true, true
+			case isFalse:
+				return true, false
+			}
+		}
 	case *ast.BinaryExpr:
 		if x.Op == token.LAND || x.Op == token.LOR {
 			ka, va := r.condValue(x.X, st)
@@ -3369,11 +3679,13 @@ func (r *runner) condValue(cond ast.Expr, st *State) (known, val bool) {
 		} else {
 			return false, false
 		}
-		id, ok := other.(*ast.Ident)
-		if !ok {
-			return false, false
+		var o types.Object
+		switch y := other.(type) {
+		case *ast.Ident:
+			o = r.info.Uses[y]
+		case *ast.SelectorExpr:
+			o = r.fieldObj(y)
 		}
-		o := r.info.Uses[id]
 		if o == nil {
 			return false, false
 		}
